@@ -30,6 +30,7 @@ RULE = (
 )
 ASSUMPTIONS = [
     "tensors returned by earlier calls of the history are held by the caller and must keep their values during later calls (no shared output buffers)",
+    "module-level containers and tensors of every loaded nflows module must be unchanged by a call (no memo / scratch buffer at module scope)",
     "arguments: value (torch.equal) and _version must be unchanged, also for the base tensor of a view; model state: values of all parameters and buffers (incl. non-persistent)",
     "training mode: only BatchNorm running statistics (nflows BatchNorm and torch.nn.BatchNorm*), and ActNorm log_scale/shift/initialized while uninitialised, may change",
     "a call that raises is allowed (other properties own that) but must leave everything unchanged; an autograd 'in-place operation' error is reported as an attempted write",
@@ -93,6 +94,41 @@ def changed_tensors(ts, snap):
     return out
 
 
+_GMODS = {"n": -1, "mods": [], "cands": None, "nattr": -1}
+
+
+def global_fingerprint():
+    """module-level mutable objects of the library (dict / list / set / tensor attributes of every loaded nflows module): a memo or
+    scratch buffer kept at module scope makes results depend on what other models did before, in this process.
+    (The candidate list is re-scanned only when a module was loaded or a module gained / lost an attribute.)"""
+    import sys
+
+    if len(sys.modules) != _GMODS["n"]:
+        _GMODS["n"] = len(sys.modules)
+        _GMODS["mods"] = [(n, m) for n, m in list(sys.modules.items()) if m is not None and (n == "nflows" or n.startswith("nflows."))]
+        _GMODS["nattr"] = -1
+    nattr = sum(1 for _, m in _GMODS["mods"] for k in vars(m) if not k.startswith("__"))  # (dunder names: Python's own bookkeeping, e.g. __warningregistry__)
+    if nattr != _GMODS["nattr"]:
+        _GMODS["nattr"] = nattr
+        _GMODS["cands"] = [(n, k) for n, m in _GMODS["mods"] for k, v in list(vars(m).items())
+                           if not k.startswith("__") and (isinstance(v, (dict, list, set)) or torch.is_tensor(v))]
+    fp = {"#attrs": nattr}
+    for name, k in _GMODS["cands"]:
+        v = vars(sys.modules[name]).get(k)
+        if isinstance(v, (dict, list, set)):
+            try:
+                items = tuple(sorted(repr(i)[:60] for i in (v.keys() if isinstance(v, dict) else v)))
+            except Exception:
+                items = ()
+            vals = tuple((tuple(t.shape), str(t.dtype)) for t in (v.values() if isinstance(v, dict) else v) if torch.is_tensor(t))
+            fp[(name, k)] = (len(v), items, vals)
+        elif torch.is_tensor(v):
+            fp[(name, k)] = (tuple(v.shape), str(v.dtype), float(v.double().sum()) if v.numel() else 0.0, v._version)
+        else:
+            fp[(name, k)] = repr(type(v))
+    return fp
+
+
 def snap_state(m):
     d = {}
     for n, p in list(m.named_parameters()) + list(m.named_buffers()):
@@ -149,6 +185,7 @@ def explore(obj, ops_table, hist, kind, train, is_eval_repeatable=True, refs=Non
             mon.extend(mo)
         asnap = snap_tensors(mon)
         ssnap = snap_state(obj)
+        gsnap = global_fingerprint()
         allowed = allowed_in_training(obj) if train else set()
         # sampling calls are made reproducible (same seed every time); deterministic evaluation calls get a different
         # RNG state at every step, so a library that draws random numbers in such a call (e.g. dropout left on in
@@ -178,6 +215,10 @@ def explore(obj, ops_table, hist, kind, train, is_eval_repeatable=True, refs=Non
         if err is None:
             live = [t for t in (res if isinstance(res, (tuple, list)) else [res]) if torch.is_tensor(t)]
             held.append((step, op, live, [t.detach().clone() for t in live]))
+        g2 = global_fingerprint()
+        if g2 != gsnap:
+            chg = [str(k) for k in set(g2) | set(gsnap) if g2.get(k) != gsnap.get(k)]
+            out.append(("global-state", "module-level state of the library modified", "%s: module-level objects changed during the call: %s" % (where, sorted(chg)[:3])))
         ds = diff_state(obj, ssnap, allowed)
         if ds:
             out.append(("state:" + ("train" if train else "eval"), "model state modified", "%s: parameters/buffers changed: %s" % (where, ds[:4])))
